@@ -4,7 +4,7 @@
 From Coq Require Import ZArith List Bool.
 From RecordUpdate Require Import RecordSet.
 Import RecordSetNotations.
-From VD Require Import Base.Bytes Model.Engine Model.Rfb Proofs.DecodeP.
+From VD Require Import Base.Bytes Model.Engine Model.Rfb Proofs.DecodeP Gen.Exprs Proofs.HextileP Proofs.ZrleP Proofs.ExprTie.
 Import ListNotations.
 Open Scope Z_scope.
 
@@ -246,3 +246,33 @@ Theorem C02_qemu_key_marker_roundtrip : forall s x y w h tail s2 p2 es2 es r n,
   Drain s PRect (rect_hdr x y w h QEMU_KEY_ENC ++ tail) (es2 ++ es) r (S n).
 Proof. exact qemu_key_roundtrip. Qed.
 Print Assumptions C02_qemu_key_marker_roundtrip.
+
+(** The tile geometry of Hextile and ZRLE used in the theorems above (tile size, next tile, end of the rectangle) and the
+    sub-rectangle geometry of Hextile are the source's own expressions: [Gen/Exprs.v] is regenerated from rfb.py on every run
+    (gen/exprs.py) and these equalities are proved against whatever it says now - for all integers. *)
+Theorem C02_tile_geometry_is_source : forall x y w h tx ty,
+  gen_hextile_tile_size x y w h tx ty = (tile_w x w tx, tile_h y h ty) /\
+  next_pos x y w h tx ty =
+    (let '(a, b) := gen_hextile_next x y w h tx ty in if gen_hextile_done x y w h a b then None else Some (a, b)) /\
+  gen_zrle_tile_size x y w h tx ty = (ztw x w tx, zth y h ty) /\
+  gen_zrle_next x y w h tx ty = znext x w tx ty /\
+  gen_zrle_first x y = (x, y).
+Proof. exact tile_geometry_is_source. Qed.
+Print Assumptions C02_tile_geometry_is_source.
+
+Theorem C02_hextile_walk_is_source : forall s bg fg x y w h tx ty,
+  hex_next s bg fg x y w h tx ty =
+  let '(a, b) := gen_hextile_next x y w h tx ty in
+  if gen_hextile_done x y w h a b then do_connection s else ok s (PHextile bg fg x y w h a b) [].
+Proof. exact hex_next_is_source. Qed.
+Print Assumptions C02_hextile_walk_is_source.
+
+Theorem C02_subrect_geometry_is_rfc : forall tx ty xy wh, (0 <= xy < 256)%Z -> (0 <= wh < 256)%Z ->
+  gen_hextile_sub_fg tx ty xy wh = (tx + xy / 16, ty + xy mod 16, wh / 16 + 1, wh mod 16 + 1)%Z.
+Proof. exact subrect_geometry_is_rfc. Qed.
+Print Assumptions C02_subrect_geometry_is_rfc.
+
+Theorem C02_subrects_use_source_geometry : forall xy wh r tx ty,
+  hex_subrects_fg (xy :: wh :: r) tx ty = option_map (cons (gen_hextile_sub_fg tx ty xy wh)) (hex_subrects_fg r tx ty).
+Proof. exact hex_subrects_fg_is_source. Qed.
+Print Assumptions C02_subrects_use_source_geometry.
